@@ -346,6 +346,27 @@ func (x *Exec) hset(st *State, key, term string) {
 	st.H.M[key] = n
 }
 
+// hsetMem updates element memory `key` at backing b (whole inner array, or one element when idx != "")
+// and adds the forward frame lemma: a select term over the old version that is not overwritten has the
+// same value in the new version (pattern on the OLD term, so facts about earlier memory versions are
+// carried forward by E-matching).
+func (x *Exec) hsetMem(st *State, key, b, idx, val string) {
+	cur := x.hget(st.H, key)
+	var term string
+	if idx == "" {
+		term = store(cur, b, val)
+	} else {
+		term = store(cur, b, store(sel(cur, b), idx, val))
+	}
+	x.hset(st, key, term)
+	n := st.H.M[key]
+	guard := "(not (= c!m " + b + "))"
+	if idx != "" {
+		guard = "(or (not (= c!m " + b + ")) (not (= k!m " + idx + ")))"
+	}
+	st.assume(fmt.Sprintf("(forall ((c!m Int) (k!m Int)) (! (=> %s (= (select (select %s c!m) k!m) (select (select %s c!m) k!m))) :pattern ((select (select %s c!m) k!m))))", guard, n, cur, cur))
+}
+
 func (x *Exec) havocKey(st *State, key string) {
 	n := x.reg.fresh(key)
 	x.reg.declare(n, x.keySort(key))
@@ -586,7 +607,7 @@ func (x *Exec) storeAt(st *State, key, obj string, t types.Type, v Val, subRef f
 	case *types.Array:
 		mk := x.memKey(u.Elem())
 		av := v.(AV)
-		x.hset(st, mk, store(x.hget(st.H, mk), subRef(), av.A))
+		x.hsetMem(st, mk, subRef(), "", av.A)
 	default:
 		x.regKey(key, arrSort(t))
 		x.hset(st, key, store(x.hget(st.H, key), obj, x.scalar(v)))
@@ -658,12 +679,14 @@ func (x *Exec) storeElem(st *State, elem types.Type, b, i string, v Val) {
 		for n, p := range []string{"#b", "#o", "#l", "#c"} {
 			x.regKey(base+p, "(Array Int (Array Int Int))")
 			cur := x.hget(st.H, base+p)
-			x.hset(st, base+p, store(cur, b, store(sel(cur, b), i, parts[n])))
+			_ = cur
+			x.hsetMem(st, base+p, b, i, parts[n])
 		}
 	default:
 		mk := x.memKey(elem)
 		cur := x.hget(st.H, mk)
-		x.hset(st, mk, store(cur, b, store(sel(cur, b), i, x.scalar(v))))
+		_ = cur
+		x.hsetMem(st, mk, b, i, x.scalar(v))
 	}
 }
 
